@@ -21,6 +21,8 @@ def zeroR : Ridge := (0, 0, 0)
 def Rng (ds : DSymData) (k : Ridge) : Prop :=
   1 ≤ k.1 ∧ k.1 ≤ ds.size ∧ k.2.1 ≤ ds.dim ∧ k.2.2 ≤ ds.dim ∧ k.2.1 ≠ k.2.2
 
+instance (ds : DSymData) (k : Ridge) : Decidable (Rng ds k) := by unfold Rng; infer_instance
+
 /-- the same ridge seen from the chamber on the other side of facet `i` -/
 def partner (ds : DSymData) (k : Ridge) : Ridge := (ds.dset.opU k.2.1 k.1, k.2.1, k.2.2)
 
